@@ -6,7 +6,7 @@
 #include <librfn/pack.h>
 
 static uint8_t *area, *buf;
-static int size;
+static int size, asize;      /* asize: the allocated size (guards sit behind it); size shrinks when the packer is re-initialised over what it consumed */
 static rf_pack_t pk;
 #define GUARD 16
 
@@ -37,7 +37,7 @@ static void reset(int sz)
 	if (bigmap) { munmap(bigmap, bigmaplen); bigmap = NULL; }
 	is_big = 0;
 	free(area);
-	size = sz;
+	size = asize = sz;
 	area = malloc(sz + 2 * GUARD);
 	memset(area, 0xC3, sz + 2 * GUARD);
 	buf = area + GUARD;
@@ -53,7 +53,7 @@ static int guards_ok(void)
 		return 1;
 	}
 	for (int i = 0; i < GUARD; i++)
-		if (area[i] != 0xC3 || buf[size + i] != 0xC3)
+		if (area[i] != 0xC3 || buf[asize + i] != 0xC3)
 			return 0;
 	return 1;
 }
@@ -143,6 +143,16 @@ static void do_rewind(void)
 	tail();
 }
 
+/* "flip": re-initialise the packer over exactly what it has consumed so far (pack, flip, unpack) - the size argument reads
+ * the very packer that is being initialised */
+static void do_flip(void)
+{
+	if (rf_pack_consumed(&pk) < 0 || rf_pack_consumed(&pk) > size) { do_rewind(); return; }
+	rf_pack_init(&pk, buf, rf_pack_consumed(&pk));
+	size = rf_pack_remaining(&pk) + rf_pack_consumed(&pk);
+	printf("{\"e\":\"Flip\",\"a\":[],\"r\":[]");
+	tail();
+}
 static const char *ops16[] = { "PackS16le", "PackU16le", "PackU16be" };
 static const char *ops32[] = { "PackS32le", "PackU32le" };
 static void sweep16(int stride)
@@ -173,6 +183,20 @@ static void sweep32(int nrandom)
 				do_rewind();
 				do_unpack("UnpackU32le");
 			}
+		}
+	/* the extremes of the 32-bit range and of each half */
+	static const uint32_t ext[] = { 0xffffffffu, 0xfffffffeu, 0x7fffffffu, 0x80000000u, 0, 1, 0xffff0000u, 0x0000ffffu, 0xff00ff00u, 0x00ff00ffu, 0xfffffeffu, 0x01000000u };
+	for (unsigned i = 0; i < sizeof(ext) / sizeof(ext[0]); i++)
+		for (int o = 0; o < 2; o++) {
+			uint8_t b[4] = { ext[i] >> 24, ext[i] >> 16, ext[i] >> 8, ext[i] };
+			reset(4 + o);
+			do_packint(ops32[o], b, 4);
+			do_rewind();
+			do_unpack("UnpackU32le");
+			reset(9);
+			do_packint(ops32[1 - o], b, 4); do_packint(ops32[o], b, 4);
+			do_flip();
+			do_unpack("UnpackU32le"); do_unpack("UnpackU32le"); do_unpack("UnpackU8");
 		}
 	for (int i = 0; i < nrandom; i++) {
 		uint8_t b[4] = { drv_rand(), drv_rand(), drv_rand(), drv_rand() };
@@ -248,7 +272,7 @@ static void randomseq(int nexec, int nops)
 			case 4: case 5: do_packint(ops32[drv_below(2)], b, 4); break;
 			case 6: do_unpackbytes(drv_below(5) ? drv_below(9) : 9 + drv_below(16), drv_below(4) != 0); break;
 			case 7: case 8: case 9: do_unpack(un[drv_below(5)]); break;
-			case 10: do_rewind(); break;
+			case 10: if (drv_below(2)) do_rewind(); else do_flip(); break;
 			case 11: do_unpack("UnpackU32le"); break;
 			}
 		}
@@ -273,6 +297,7 @@ int main(void)
 		}
 		else if (!strncmp(op, "Unpack", 6)) do_unpack(op);
 		else if (drv_is(&c, "Rewind")) do_rewind();
+		else if (drv_is(&c, "Flip")) do_flip();
 		else if (drv_is(&c, "Sweep16")) sweep16(drv_arg(&c, 0));
 		else if (drv_is(&c, "Sweep32")) { drv_srand(drv_arg(&c, 0)); sweep32(drv_arg(&c, 1)); }
 		else if (drv_is(&c, "Random")) { drv_srand(drv_arg(&c, 0)); randomseq(drv_arg(&c, 1), drv_arg(&c, 2)); }
